@@ -408,8 +408,21 @@ def deepcopy_check(chk, W):
 
 
 def run(chk):
+    from py2coq import unitlist_tu
+    from py2coq.ir import Untranslatable
+    try:
+        txt, info = unitlist_tu.generate()
+        chk.x_stats['translator_TU'] = info
+    except Untranslatable as e:
+        chk.unshown_add('translator T-U', f"unit.py left the recognised fragment: {e}")
+        txt = ("From PyrollLib Require Import UnitTree UnitEffects.\nFrom Coq Require Import String.\n"
+               "Definition gen_methods : list (string * list effect) := [].\n")
+    chk.coq.add_text('Gen_unitlist.v', txt)
+    chk.coq.compile('Gen_unitlist.v')
     chk.coq.add_prop_file('C13.v')
     chk.coq.compile('C13.v', is_props=True, timeout=600)
+    chk.trusted.append("translator T-U (tools/py2coq/unitlist_tu.py): _SubUnitsList methods as effect sequences in source order; fail closed; the list semantics "
+                       "of each method (which list results, which units are current / new) stay hand-written in UnitTree.step and are tied by the correspondence run")
     rng = random.Random(chk.seed * 613 + 13)
     n = 4000 if chk.thorough else 600
     cases, rendered, opmix = [], [], {}
